@@ -262,6 +262,8 @@ class ParametriseTransformation(Transformation):
                 else:
                     dic2p = {}
 
+        # Fortran names are case-insensitive
+        dic2p = CaseInsensitiveDict(dic2p)
         vars2p = list(dic2p)
 
         # proceed if dictionary with mapping of variables to parametrised is not empty
@@ -270,7 +272,7 @@ class ParametriseTransformation(Transformation):
                 # rename arguments that are parametrised (to allow for sanity checks)
                 arguments = []
                 for arg in routine.arguments:
-                    if arg.name not in vars2p:
+                    if arg.name not in dic2p:
                         arguments.append(arg)
                     else:
                         arguments.append(arg.clone(name=f'parametrised_{arg.name}'))
@@ -299,7 +301,7 @@ class ParametriseTransformation(Transformation):
                         routine.body.prepend(conditional)
                         routine.body.prepend(ir.Comment(f"! Sanity check for parametrised variable: {key}"))
             else:
-                routine.arguments = [arg for arg in routine.arguments if arg.name not in vars2p]
+                routine.arguments = [arg for arg in routine.arguments if arg.name not in dic2p]
 
             # remove variables to be parametrised from all call statements
             call_map = {}
